@@ -186,102 +186,54 @@ pub fn get_extension(s: &str) -> String {
     }
 }
 
+/// A size literal as an exact fraction of bytes: number x multiplier, the number written with
+/// an optional decimal part. `2.01kb` is exactly 2010 bytes and `0.1m` is 104857.6 bytes.
+pub fn parse_filesize_exact(s: &str) -> Option<(u128, u128)> {
+    const K: u128 = 1024;
+    const D: u128 = 1000;
+    const UNITS: [(&str, u128); 13] = [
+        ("kib", K), ("mib", K * K), ("gib", K * K * K), ("tib", K * K * K * K),
+        ("kb", D), ("mb", D * D), ("gb", D * D * D), ("tb", D * D * D * D),
+        ("k", K), ("m", K * K), ("g", K * K * K), ("t", K * K * K * K),
+        ("b", 1),
+    ];
+
+    let string = s.to_ascii_lowercase().replace(' ', "");
+
+    let (number, multiplier, fraction_allowed) = match UNITS
+        .iter()
+        .find(|(suffix, _)| string.len() > suffix.len() && string.ends_with(suffix))
+    {
+        Some((suffix, multiplier)) => (&string[..string.len() - suffix.len()], *multiplier, *suffix != "b"),
+        None => (string.as_str(), 1, false),
+    };
+
+    let (int_part, frac_part) = match number.split_once('.') {
+        Some((int_part, frac_part)) if fraction_allowed => (int_part, frac_part),
+        Some(_) => return None,
+        None => (number, ""),
+    };
+
+    if int_part.is_empty() && frac_part.is_empty()
+        || !int_part.bytes().all(|b| b.is_ascii_digit())
+        || !frac_part.bytes().all(|b| b.is_ascii_digit())
+        || int_part.len() > 20
+        || frac_part.len() > 15
+    {
+        return None;
+    }
+
+    let denominator = 10u128.pow(frac_part.len() as u32);
+    let int_value = if int_part.is_empty() { 0 } else { int_part.parse::<u128>().ok()? };
+    let frac_value = if frac_part.is_empty() { 0 } else { frac_part.parse::<u128>().ok()? };
+
+    Some(((int_value * denominator + frac_value) * multiplier, denominator))
+}
+
+/// A size literal in whole bytes (a fraction of a byte is dropped).
 pub fn parse_filesize(s: &str) -> Option<u64> {
-    let string = s.to_string().to_ascii_lowercase().replace(" ", "");
-    let length = string.len();
-
-    if length > 1 && string.ends_with("k") {
-        return match &string[..(length - 1)].parse::<f64>() {
-            Ok(size) => Some((*size * 1024.0) as u64),
-            _ => None,
-        };
-    }
-
-    if length > 2 && string.ends_with("kb") {
-        return match &string[..(length - 2)].parse::<f64>() {
-            Ok(size) => Some((*size * 1000.0) as u64),
-            _ => None,
-        };
-    }
-
-    if length > 3 && string.ends_with("kib") {
-        return match &string[..(length - 3)].parse::<f64>() {
-            Ok(size) => Some((*size * 1024.0) as u64),
-            _ => None,
-        };
-    }
-
-    if length > 1 && string.ends_with("m") {
-        return match &string[..(length - 1)].parse::<f64>() {
-            Ok(size) => Some((*size * 1024.0 * 1024.0) as u64),
-            _ => None,
-        };
-    }
-
-    if length > 2 && string.ends_with("mb") {
-        return match &string[..(length - 2)].parse::<f64>() {
-            Ok(size) => Some((*size * 1000.0 * 1000.0) as u64),
-            _ => None,
-        };
-    }
-
-    if length > 3 && string.ends_with("mib") {
-        return match &string[..(length - 3)].parse::<f64>() {
-            Ok(size) => Some((*size * 1024.0 * 1024.0) as u64),
-            _ => None,
-        };
-    }
-
-    if length > 1 && string.ends_with("g") {
-        return match &string[..(length - 1)].parse::<f64>() {
-            Ok(size) => Some((*size * 1024.0 * 1024.0 * 1024.0) as u64),
-            _ => None,
-        };
-    }
-
-    if length > 2 && string.ends_with("gb") {
-        return match &string[..(length - 2)].parse::<f64>() {
-            Ok(size) => Some((*size * 1000.0 * 1000.0 * 1000.0) as u64),
-            _ => None,
-        };
-    }
-
-    if length > 3 && string.ends_with("gib") {
-        return match &string[..(length - 3)].parse::<f64>() {
-            Ok(size) => Some((*size * 1024.0 * 1024.0 * 1024.0) as u64),
-            _ => None,
-        };
-    }
-
-    if length > 1 && string.ends_with("t") {
-        return match &string[..(length - 1)].parse::<f64>() {
-            Ok(size) => Some((*size * 1024.0 * 1024.0 * 1024.0 * 1024.0) as u64),
-            _ => None,
-        };
-    }
-
-    if length > 2 && string.ends_with("tb") {
-        return match &string[..(length - 2)].parse::<f64>() {
-            Ok(size) => Some((*size * 1000.0 * 1000.0 * 1000.0 * 1000.0) as u64),
-            _ => None,
-        };
-    }
-
-    if length > 3 && string.ends_with("tib") {
-        return match &string[..(length - 3)].parse::<f64>() {
-            Ok(size) => Some((*size * 1024.0 * 1024.0 * 1024.0 * 1024.0) as u64),
-            _ => None,
-        };
-    }
-
-    if length > 1 && string.ends_with("b") {
-        return match &string[..(length - 1)].parse::<u64>() {
-            Ok(size) => Some(size * 1),
-            _ => None,
-        };
-    }
-
-    string.parse::<u64>().ok()
+    parse_filesize_exact(s)
+        .map(|(numerator, denominator)| u64::try_from(numerator / denominator).unwrap_or(u64::MAX))
 }
 
 static FILE_SIZE_FORMAT_REGEX: LazyLock<Regex> = LazyLock::new(|| {
